@@ -98,6 +98,8 @@ type Content struct {
 	Val    Value         // cell
 	Fields map[int]Value // struct
 	Seq    *Term         // array / buffer unread bytes
+	SeqVar *Term         // buffer: the variable that Seq (== SeqOf) was substituted for by normalizeBuffers
+	SeqOf  *Term
 	Epoch  int           // buffer modification epoch
 	Tag    *Term         // dyn: dynamic type tag
 	MV     *Term         // dyn: abstract message value
@@ -275,9 +277,26 @@ func (s *State) saturate() {
 				s.pc[i] = True
 				changed = true
 				s.assume(p.Args[1])
+			} else if p.Op == "=>" && s.someRefuted(p.Args[1]) {
+				// modus tollens: a behaviour whose conclusion is known to be false did not apply
+				s.pc[i] = True
+				changed = true
+				s.assume(Not(p.Args[0]))
 			}
 		}
 	}
+}
+
+func (s *State) someRefuted(c *Term) bool {
+	if c.Op == "and" {
+		for _, a := range c.Args {
+			if s.someRefuted(a) {
+				return true
+			}
+		}
+		return false
+	}
+	return s.implied(c) == -1
 }
 
 // ---------------------------------------------------------------- types
